@@ -7,7 +7,13 @@ ID = "C04"
 LEAN_MODULES = ["LhasaV.Props.C04"]
 VH_FEATURES = ["decoder"]
 PER_OP_SECONDS = 60
-THEOREMS = {}
+THEOREMS = {
+    "pm1_decode_serialise": "FULL STATEMENT (-pm1-): every well-formed description, any chunking/schedule, declared length <= expansion (< 4 GiB)",
+    "pm2_decode_serialise": "FULL STATEMENT (-pm2-): every well-formed description incl. every table form at every rebuild point, declared length <= expansion",
+    "history_refines_mtf": "full: every output sequence", "history_find": "full: both walking directions",
+    "pm2_schedule": "full: rebuild exactly at 1024, 2048, 4096, 8192 + 4096k, also inside a copy",
+    "pm1_trees_ok": "full (Gen): the 32 byte-class trees", "tables_match_source": "full (Gen)", "init_history_is_initOrder": "full (Gen)",
+}
 TRUSTED = ["spec LhasaV.Spec.PmEnc (the -pm1-/-pm2- stream formats as encoders, all constants stated independently of the source: "
            "move-to-front initial order, byte/copy classes, pm1 position thresholds and 32 byte-class trees, pm2 rebuild schedule) "
            "and Spec.Lz77.expandWin",
@@ -34,7 +40,7 @@ def gen_cases(ctx, n):
     descs = []
     for i in range(n):
         if i % 2 == 0:
-            prof = r.choice(["mixed", "mixed", "mixed", "bytes", "small", "single28", "singlebyte", "ten"])
+            prof = r.choice(["mixed", "mixed", "mixed", "bytes", "small", "single28", "singlebyte", "ten", "singlecopy", "switch", "switch", "switch"])
             target = r.choice([10, 200, 1100, 2100, 3000, 4200, 5000, 8300, 9000, 13000, 17000])
             g = None
             while g is None:
@@ -73,7 +79,11 @@ def signature(case, c_out, why):
     return case.op.split()[1] + ":wrong-output"
 
 
-LEVEL_TEXT = ("Lean theorems about the PMarc decoder models (see evidence.theorems); models tied to the C by a three-way differential "
-              "run over generated stream descriptions serialised by the Lean specification of the formats.")
-LEVEL_NOTE = "see DESIGN.md section 5, C04"
+LEVEL_TEXT = ("Kernel-checked round-trip theorems at full strength for -pm1- and -pm2-: for every well-formed stream description, any callback "
+              "chunking, read schedule and declared length up to the expansion's length, the decoder API yields exactly the expansion; with "
+              "the move-to-front refinement of the history list, the -pm2- rebuild schedule and every variable-length code. Models tied to "
+              "the C by a three-way differential run; tables regenerated from the compiled source.")
+LEVEL_NOTE = ("Trusted: Lean kernel; axioms propext, Classical.choice, Quot.sound; Spec.PmEnc/Spec.Lz77 as the meaning of the formats; the hand "
+              "decoder models (differentially validated on every run); gen/ext_small.c. Declared length <= expansion is the property's own domain "
+              "(-pm1- zero-fills, -pm2- has no end marker).")
 TECHNIQUE = "Lean 4 proof (move-to-front refinement, code bijections, rebuild schedule) + three-way differential correspondence"
